@@ -35,6 +35,9 @@ TTokens   == QTokens \cup { [t |-> "q", kind |-> "k2", d |-> "x"], [t |-> "empty
 TRequests == { <<a>> : a \in TTokens } \cup { <<a, b>> : a \in TTokens, b \in TTokens }
              \cup { <<a, b, c>> : a \in TTokens, b \in TTokens, c \in TTokens }
 
+InjDirLists == { <<"A", "B">> }
+InjContents == { Ok("k1", {"x"}, 1), Ok("k1", {"x", "y"}, 1), Bad("syntax") }
+
 \* thorough generation universes
 T0DirLists == TDirLists
 T0Contents == { Ok("k1", {"x"}, 1), Ok("k1", {"x", "y"}, 1), Ok("k2", {"x"}, 1), Bad("syntax") }
